@@ -309,8 +309,13 @@ add_penalty_term(uint64_t* nsplines, double* knots, uint32_t ndim, uint32_t dim,
 	cholmod_sparse* penalty_tmp, * penalty_chunk;
 	double scale1[2] = {1.0, 0.0}; double scale2[2] = {1.0, 0.0};
 
-	if (scale == 0.0)
-		return (penalty);		
+	/*
+	 * The porder-th derivative of a spline of degree `order` vanishes
+	 * identically for porder > order, so such a term contributes nothing
+	 * (and divided_diffs() is only defined for porder <= order).
+	 */
+	if (scale == 0.0 || porder > order)
+		return (penalty);
 
 	penalty_chunk = calc_penalty(nsplines, knots, ndim, dim, order,
 	    porder, mono, c);
